@@ -199,6 +199,9 @@ func (a *Analysis) CheckC01(rep *Report) {
 			rep.Ob("M3-computed-fields-verified-by-"+sub.id, "all-frames", true, "", "")
 		}
 	}
+	// M7: "body/extension type matching its discriminator": a message whose extension is the one the schema pairs with
+	// its discriminator value comes back as that type only if the table builds it for that value (C12)
+	a.discriminatorPremise(rep, "M7-discriminators-verified-by-C12", "the discriminator does not build the pinned type, so a message carrying that type does not come back as it went")
 	rep.Floor("codec_types", len(a.U.Types), goldenFloor("types", 170))
 	rep.Counts["field_pairs"] = nfields
 	rep.Floor("field_pairs", nfields, goldenFloor("fields", 1000))
@@ -1043,7 +1046,7 @@ func (a *Analysis) primitiveMirror() (problems []string, pos []string, n int) {
 				parts = append(parts, nameless(f))
 			}
 			if os.Getenv("FPDEBUG") == "prim" {
-				fmt.Fprintln(os.Stderr, "prim", FuncName(fn), "reader", isReader, strings.Join(parts, " · "))
+				fmt.Fprintln(os.Stderr, "prim", FuncName(fn), "reader", isReader, strings.Join(parts, " · "), "ret", prettyVals(p.Ret), "content", prettyVals(p.RetContent))
 			}
 			if irregularAny {
 				continue // helpers that are not a rendering of their own (pad-only, prefix-only); judged where they are inlined
